@@ -138,7 +138,9 @@ DepConds(ev) ==
          [] ev.e = "Memzero" ->
             << Cond("memzero-through-injected", {"C18", "C16", "C13"}, ev.impl = deps.memzero),
                Cond("memzero-inside-block", {"C14", "C13"},
-                    ev.blk >= 1 => (ev.blk \in DOMAIN blocks /\ ev.off + ev.len <= blocks[ev.blk].size)) >>
+                    ev.blk >= 1 => (ev.blk \in DOMAIN blocks /\ ev.off + ev.len <= blocks[ev.blk].size)),
+               \* (blk -2: memory of a block already handed back to the injected free)
+               Cond("no-wipe-of-released-memory", {"C14", "C15", "C13", "C16"}, ev.blk # 0 - 2) >>
          [] ev.e = "Rand" ->
             << Cond("rand-through-injected", {"C18", "C13"}, ev.impl = deps.rand),
                Cond("rand-only-in-create", {"C18", "C13"} \cup OpProps(op), op = "Create"),
@@ -186,7 +188,7 @@ DepConds(ev) ==
                     \A q \in 1..Len(GoldenPw.pool) :
                         (ev["in"] = GoldenPw.pool[q].nfc \/ ev["in"] = GoldenPw.pool[q].nfd)
                         => ev.out = SubSeq(GoldenPw.pool[q].nfkd, 1, Min2(Len(GoldenPw.pool[q].nfkd), StrSize - 1))),
-               Cond("nfkd-of-the-argument", {"C13", "C14"},
+               Cond("nfkd-of-the-argument", {"C13", "C14"} \cup OpProps(op),
                     op \in {"Decode", "DecodeX", "Crypt"} =>
                         LET s == IF op = "Crypt" THEN call.a.pw ELSE call.a.str
                         IN ev.inlen = call.a.len /\ ev["in"] = s) >>
@@ -274,7 +276,8 @@ ConstructorConds(r, exp) ==
 
 EncodeCondsFit(r, outp, fits) ==
     << Cond("phrase-fits-the-public-buffer", {"C17", "C01", "C13"}, fits),
-       Cond("phrase-bytes", {"C03", "C13"} \cup (IF fits /\ ~CutShort(r.str, outp) THEN {} ELSE {"C17"}), r.str = outp),
+       \* (C01: decoding the encoded phrase yields the seed - not if the phrase is not the seed's; C07: the words as published)
+       Cond("phrase-bytes", {"C03", "C13", "C01", "C07"} \cup (IF fits /\ ~CutShort(r.str, outp) THEN {} ELSE {"C17"}), r.str = outp),
        Cond("returned-length-is-string-length", {"C17", "C13"}, r.ret = Len(r.str)),
        Cond("output-terminated-inside-buffer", {"C17", "C14", "C13"}, r.terminated /\ ~r.spill),
        Cond("composed-iff-language-composes", {"C03", "C13"},
